@@ -10,7 +10,7 @@ def gen(run):
 
 
 fam.make(globals(), "C05", ["C05"], gen, kinds=True)
-COQ_TARGETS = ["theories/Props/C05.vo"]
+COQ_TARGETS = ["theories/Props/C05.vo", "theories/Mp4/LoopProofsExamples.vo", "theories/Mp4/LoopProofsTotalInst.vo"]
 REQUIRES = ["From Coq Require Import List NArith ZArith Bool.", "From Coq.Strings Require Import Byte.",
             "From MS Require Import Base.Bytes Base.Outcome Base.Prog Mp4.Header Mp4.Box Mp4.San Mp4.Spec Props.C05.",
             "Import ListNotations.", "Open Scope N_scope."]
